@@ -238,6 +238,18 @@ func isWordTok(s string) bool {
 	return isWordRune(r)
 }
 
+func isNumberTok(s string) bool {
+	if s == "" {
+		return false
+	}
+	for i := 0; i < len(s); i++ {
+		if (s[i] < '0' || s[i] > '9') && s[i] != '.' {
+			return false
+		}
+	}
+	return s[len(s)-1] != '.'
+}
+
 func isWordRune(r rune) bool {
 	return r == '_' || unicode.IsLetter(r) || unicode.IsDigit(r)
 }
@@ -267,6 +279,13 @@ func CanAbut(a, b string) bool {
 	}
 	ra, _ := utf8.DecodeLastRuneInString(a)
 	rb, _ := utf8.DecodeRuneInString(b)
+	if isKeywordOp(b) && b != "if" && isNumberTok(a) {
+		// a number literal ends where its digits end: 2or y, 1is pos, 3b-and 1 (a name would swallow the word)
+		switch b {
+		case "in", "not", "and", "or", "is", "matches", "starts", "ends", "b-and", "b-or", "b-xor":
+			return true
+		}
+	}
 	if isWordRune(ra) && isWordRune(rb) {
 		return false
 	}
